@@ -29,7 +29,7 @@ Proof.
     assert (Hpa : pub sa = pub s).
     { apply loop_pub in Hla. destruct Hla as [?|[_ [? _]]]; [assumption|congruence]. }
     inversion Hh as [|? ? Hw Hws]; subst.
-    rewrite drive_cons. unfold from_wire. rewrite group_true.
+    rewrite drive_cons by solve_req. unfold from_wire. rewrite group_true.
     rewrite process_running; [|exact Hra|apply Hw|rewrite Hrt; apply Hw].
     cbn [m_answer].
     destruct (IH rest (w_records w) sa s1) as ([n Hn] & R1 & R2 & R3); auto.
@@ -89,7 +89,7 @@ Proof.
     as ([n Hn] & R1 & R2 & R3); try assumption.
   { repeat split; try reflexivity; discriminate. }
   exists sp, n. split; [|split; [exact R1|split; [exact R2|exact R3]]].
-  unfold inbound_xfr, xfr_run. rewrite init_ixfr. cbn [Z.eqb tIXFR Pos.eqb app]. rewrite drive_cons.
+  unfold inbound_xfr, xfr_run. rewrite init_ixfr. cbn [Z.eqb tIXFR Pos.eqb app]. rewrite drive_cons by solve_req.
   rewrite (first_message_ixfr z0 (v_serial v0) false w (soa_rr (last chain v0)) a Hw Hr) by (split; reflexivity).
   cbv zeta. change (r_data (soa_rr (last chain v0)) mod two32) with (v_serial (last chain v0)).
   assert (Hne : (v_serial (last chain v0) =? v_serial v0) = false).
@@ -109,10 +109,10 @@ Theorem ixfr_rcode_fault_rejected : forall v0 chain z0 ws1 w' ws2 q,
 Proof.
   intros v0 chain z0 ws1 w' ws2 q Hok Hz Hh Hq Hcat Hfirst Hrc.
   destruct (ixfr_partial v0 chain z0 ws1 q (w' :: ws2) Hok Hz Hh Hq Hcat Hfirst) as [->|(s1 & n & Hn & R1 & R2 & R3)].
-  - cbn [app]. unfold inbound_xfr, xfr_run. rewrite init_ixfr. cbn [Z.eqb tIXFR Pos.eqb]. rewrite drive_cons.
+  - cbn [app]. unfold inbound_xfr, xfr_run. rewrite init_ixfr. cbn [Z.eqb tIXFR Pos.eqb]. rewrite drive_cons by solve_req.
     destruct (process_bad_rcode (ixfr_init z0 (v_serial v0) false) (from_wire true w') Hrc) as [s' [Hp Hpub]].
     rewrite Hp. cbn [cont]. rewrite Hpub. eexists; reflexivity.
-  - rewrite Hn. rewrite drive_cons.
+  - rewrite Hn. rewrite drive_cons by solve_req.
     destruct (process_bad_rcode s1 (from_wire true w') Hrc) as [s' [Hp Hpub]].
     rewrite Hp. cbn [cont bump fst snd]. rewrite Hpub, R3. eexists; reflexivity.
 Qed.
@@ -129,11 +129,11 @@ Theorem ixfr_question_fault_rejected : forall v0 chain z0 ws1 w' ws2 q qn qt qs,
 Proof.
   intros v0 chain z0 ws1 w' ws2 q qn qt qs Hok Hz Hh Hq Hcat Hfirst Hrc Hqq Hbad.
   destruct (ixfr_partial v0 chain z0 ws1 q (w' :: ws2) Hok Hz Hh Hq Hcat Hfirst) as [->|(s1 & n & Hn & R1 & R2 & R3)].
-  - cbn [app]. unfold inbound_xfr, xfr_run. rewrite init_ixfr. cbn [Z.eqb tIXFR Pos.eqb]. rewrite drive_cons.
+  - cbn [app]. unfold inbound_xfr, xfr_run. rewrite init_ixfr. cbn [Z.eqb tIXFR Pos.eqb]. rewrite drive_cons by solve_req.
     destruct (process_bad_question (ixfr_init z0 (v_serial v0) false) (from_wire true w') qn qt qs Hrc Hqq Hbad)
       as (s' & e & Hp & He & Hpub).
     rewrite Hp. cbn [cont]. rewrite Hpub. exists e. eexists. split; [exact He|reflexivity].
-  - rewrite Hn. rewrite drive_cons.
+  - rewrite Hn. rewrite drive_cons by solve_req.
     assert (Hbad' : qn <> origin \/ qt <> rdtype s1) by (rewrite R2; exact Hbad).
     destruct (process_bad_question s1 (from_wire true w') qn qt qs Hrc Hqq Hbad') as (s' & e & Hp & He & Hpub).
     rewrite Hp. cbn [cont bump fst snd]. rewrite Hpub, R3. exists e. eexists. split; [exact He|reflexivity].
@@ -153,7 +153,7 @@ Proof.
     rewrite (loop_loopn _ _ _ (loopn_addrs _ _ _ _ _ _ _ (G2 a Ha))).
     cbn [cont]. unfold ast at 1. cbn [done]. fold (ast false rdt p (addrs tz (g a)) ser s0).
     inversion Hh as [|? ? Hw Hws]; subst.
-    rewrite drive_cons. unfold from_wire.
+    rewrite drive_cons by solve_req. unfold from_wire.
     rewrite process_running; [|apply running_ast|apply Hw|apply Hw]. cbn [m_answer].
     destruct (IH one_rr (group one_rr) (w_records w) rdt p (addrs tz (g a)) ser s0 Hg1 Hg1 Hws Hrest) as [n Hn].
     rewrite Hn. eauto.
@@ -170,7 +170,7 @@ Proof.
   { unfold inbound_xfr, xfr_run. rewrite init_axfr. cbn. eauto. }
   inversion Hh as [|? ? Hw Hws]; subst.
   destruct (w_records w) as [|r0 a] eqn:Hr.
-  { unfold inbound_xfr, xfr_run. rewrite init_axfr. cbn [Z.eqb tAXFR tIXFR Pos.eqb]. rewrite drive_cons.
+  { unfold inbound_xfr, xfr_run. rewrite init_axfr. cbn [Z.eqb tAXFR tIXFR Pos.eqb]. rewrite drive_cons by solve_req.
     unfold process_message, from_wire. cbn [txn axfr_init incremental pub set_txn rdtype m_rcode m_question m_answer].
     destruct Hw as [Hrc Hqq]. rewrite Hrc. cbn [Z.eqb negb]. rewrite (header_ok_question tAXFR w (conj Hrc Hqq)).
     cbn [soa]. rewrite Hr. cbn. eauto. }
@@ -179,7 +179,7 @@ Proof.
   rewrite app_assoc in Hcat'. apply app_snoc_split in Hcat'.
   destruct Hcat' as [[c' [Hbody Hq']]|[_ Hq']]; [|congruence].
   pose proof (body_plain _ Hwf) as Hpl. rewrite Hbody in Hpl. apply Forall_app in Hpl. destruct Hpl as [Hpl _].
-  unfold inbound_xfr, xfr_run. rewrite init_axfr. cbn [Z.eqb tAXFR tIXFR Pos.eqb]. rewrite drive_cons.
+  unfold inbound_xfr, xfr_run. rewrite init_axfr. cbn [Z.eqb tAXFR tIXFR Pos.eqb]. rewrite drive_cons by solve_req.
   rewrite (first_message_axfr z0 ser w (soa_rr v) a Hw Hr) by (split; reflexivity).
   destruct (cont_full_eof ws' false (map single) a tAXFR z0 [] (match ser with Some sv => sv | None => 0 end)
               (single (soa_rr v)) parse_single_ok parse_group_ok Hws Hpl) as [n Hn].
@@ -367,7 +367,8 @@ Proof.
   { destruct (soa s) as [s0|] eqn:Es; [apply Hkeep; reflexivity|].
     destruct (Hset eq_refl eq_refl) as [r0 [rs [Ha Hs']]]. exists r0, rs. split; [exact Ha|exact Hs']. }
   destruct (done s') eqn:Hd.
-  - inversion H; subst. destruct Hpub as [Hpub|[s0 [Hs0 Ha]]]; [left; exact Hpub|right].
+  - destruct (req_tsig s' && negb (w_tsig w)); [discriminate|].
+    inversion H; subst. destruct Hpub as [Hpub|[s0 [Hs0 Ha]]]; [left; exact Hpub|right].
     destruct (soa s) as [s00|].
     + rewrite SOA' in Hs0. inversion Hs0; subst. exact Ha.
     + destruct SOA' as [r0 [rs [Hg Hs']]]. rewrite Hs' in Hs0. inversion Hs0; subst.
@@ -423,7 +424,7 @@ Proof.
   assert (Hpub : pub sp = z0).
   { apply loop_pub in Hlp. destruct Hlp as [?|[_ [? _]]]; [assumption|congruence]. }
   assert (Hudp : is_udp sp = true) by (apply loop_inv in Hlp; destruct Hlp as (_ & H & _); exact H).
-  unfold inbound_xfr, xfr_run. rewrite init_ixfr. cbn [Z.eqb tIXFR Pos.eqb]. rewrite drive_cons.
+  unfold inbound_xfr, xfr_run. rewrite init_ixfr. cbn [Z.eqb tIXFR Pos.eqb]. rewrite drive_cons by solve_req.
   rewrite (first_message_ixfr z0 (v_serial v0) true w (soa_rr (last chain v0)) a Hw Hr) by (split; reflexivity).
   cbv zeta. change (r_data (soa_rr (last chain v0)) mod two32) with (v_serial (last chain v0)).
   assert (Hne : (v_serial (last chain v0) =? v_serial v0) = false).
@@ -480,7 +481,7 @@ Proof.
       pose proof (running_after_loop _ _ _ Hrun Hla Hda) as Hra.
       assert (Hrt : rdtype sa = rdtype s) by (apply loop_inv in Hla; tauto).
       inversion Hh as [|? ? Hw Hws]; subst.
-      rewrite drive_cons. unfold from_wire. rewrite group_true.
+      rewrite drive_cons by solve_req. unfold from_wire. rewrite group_true.
       rewrite process_running; [|exact Hra|apply Hw|rewrite Hrt; apply Hw].
       cbn [m_answer]. cbn [map concat] in Hrest.
       destruct (IH (w_records w) sa c' x rest s1 s' e) as [n Hn]; auto.
@@ -515,7 +516,7 @@ Theorem ixfr_corrupt_serial_rejected : forall v0 pre vn bad rest z0 ws,
 Proof.
   intros v0 pre vn bad rest z0 ws Hv0 Hpre Hz Hd Hne Hlt Hbs Hbser Hch.
   apply chunking_first in Hch. destruct Hch as (w & ws' & a & -> & Hr & Hw & Hws & Hcat).
-  unfold inbound_xfr, xfr_run. rewrite init_ixfr. cbn [Z.eqb tIXFR Pos.eqb]. rewrite drive_cons.
+  unfold inbound_xfr, xfr_run. rewrite init_ixfr. cbn [Z.eqb tIXFR Pos.eqb]. rewrite drive_cons by solve_req.
   rewrite (first_message_ixfr z0 (v_serial v0) false w (soa_rr vn) a Hw Hr) by (split; reflexivity).
   cbv zeta. change (r_data (soa_rr vn) mod two32) with (v_serial vn).
   apply Z.eqb_neq in Hne. rewrite Hne, Hlt. cbn [andb]. rewrite after_tcp by reflexivity.
@@ -561,7 +562,7 @@ Theorem ixfr_bad_delete_rejected : forall v0 pre vn D1 r z1 rest z0 ws,
 Proof.
   intros v0 pre vn D1 r z1 rest z0 ws Hv0 Hpre Hz Hd Hne Hlt HD1 Hr Hdels Hdel Hch.
   apply chunking_first in Hch. destruct Hch as (w & ws' & a & -> & Hrec & Hw & Hws & Hcat).
-  unfold inbound_xfr, xfr_run. rewrite init_ixfr. cbn [Z.eqb tIXFR Pos.eqb]. rewrite drive_cons.
+  unfold inbound_xfr, xfr_run. rewrite init_ixfr. cbn [Z.eqb tIXFR Pos.eqb]. rewrite drive_cons by solve_req.
   rewrite (first_message_ixfr z0 (v_serial v0) false w (soa_rr vn) a Hw Hrec) by (split; reflexivity).
   cbv zeta. change (r_data (soa_rr vn) mod two32) with (v_serial vn).
   apply Z.eqb_neq in Hne. rewrite Hne, Hlt. cbn [andb]. rewrite after_tcp by reflexivity.
